@@ -97,6 +97,8 @@ class Interp:
         self.self_attrs = self_attrs
         self.sym = sym_range
         self.max_depth = max_depth
+        self.undecided = 0       # branches taken both ways because their condition could not be evaluated: results are then one-sided
+        self.widen_max = False   # True: np.max(<per-row quantity>) is only bounded below by the abstract row value (loses the empty-row decisions)
         self.unknown_reasons = []
         self.opaque_methods = set()
         self.calls = []          # (method name, evaluated positional args) of calls to opaque methods of self
@@ -371,6 +373,12 @@ class Interp:
             return self.minmax(args[0], args[1], True)
         if name in ("np.minimum", "min") and len(args) == 2:
             return self.minmax(args[0], args[1], False)
+        if name in ("np.any", "np.all") and len(args) == 1 and isinstance(args[0], BoolV):
+            # the abstract row is one of several: a predicate true for it makes any() true, false for it makes all() false
+            b = args[0].v
+            if name == "np.any":
+                return BoolV(True if b is True else None)
+            return BoolV(False if b is False else None)
         if name in ("np.abs", "abs", "np.absolute") and len(args) == 1:
             return self.absv(args[0])
         if name == "np.sign" and len(args) == 1:
@@ -409,6 +417,9 @@ class Interp:
             if isinstance(a0, ast.Attribute) and isinstance(a0.value, ast.Name) and a0.value.id == env.get("__self__"):
                 return self.self_attrs.get("len:" + a0.attr, TOP)
             return TOP
+        if name in ("np.max", "np.amax") and len(args) == 1 and isinstance(args[0], Iv) and not args[0].k and self.widen_max:
+            # the abstract row is one of several: the longest row is at least as long (used for clamps such as max(lengths) + 1)
+            return Iv(args[0].lo, INF)
         if name in ("np.min", "np.max", "np.amin", "np.amax") and len(args) == 1:
             return args[0] if isinstance(args[0], Iv) else TOP       # one abstract row stands for every row
         # constructor / method of the analysed class
@@ -506,6 +517,8 @@ class Interp:
             return []
         if isinstance(s, ast.Assert):
             t = self.truth(self.ev(s.test, env, depth))
+            if t is None:
+                self.undecided += 1
             if t is False:
                 return []
             self.refine(s.test, env, True, depth)
@@ -529,6 +542,8 @@ class Interp:
             return [env]
         if isinstance(s, ast.If):
             t = self.truth(self.ev(s.test, env, depth))
+            if t is None:
+                self.undecided += 1
             out = []
             if t is not False:
                 e1 = dict(env)
